@@ -2,6 +2,7 @@ pub mod c01;
 pub mod c02;
 pub mod c03;
 pub mod c04;
+pub mod c05;
 pub mod c06;
 pub mod c07;
 pub mod c08;
@@ -28,6 +29,7 @@ pub fn run(id: &str, r: &mut Runner) {
         "C02" => c02::run(r),
         "C03" => c03::run(r),
         "C04" => c04::run(r),
+        "C05" => c05::run(r),
         "C06" => c06::run(r),
         "C07" => c07::run(r),
         "C08" => c08::run(r),
